@@ -200,10 +200,24 @@ def run(ix, R):
     for site, want in names.items():
         with R.guard('5.name', 'TAB', site, 'molecule name'):
             f = ix.func(site)
-            asg = [n for n in ast.walk(f.node) if isinstance(n, ast.Assign) and unparse(n.targets[0]) == 'mol_name']
-            ok = len(asg) == 1 and unparse(asg[0].value) == want
-            R.check('5.name', 'TAB', site, 'discovered molecule name = %s' % want, ok,
-                    key=str([unparse(a.value) for a in asg]), detail=str([unparse(a.value) for a in asg]), loc=f.loc())
+            # the name is the first element of the tuple appended to the discovery list
+            names = []
+            for n in ast.walk(f.node):
+                if isinstance(n, ast.Call) and isinstance(n.func, ast.Attribute) and n.func.attr == 'append' and n.args \
+                        and isinstance(n.args[0], ast.Tuple) and len(n.args[0].elts) == 2:
+                    e = n.args[0].elts[0]
+                    if isinstance(e, ast.Name):
+                        defs = [a.value for a in ast.walk(f.node) if isinstance(a, ast.Assign) and
+                                isinstance(a.targets[0], ast.Name) and a.targets[0].id == e.id]
+                        names.extend(unparse(d) for d in defs)
+                    else:
+                        names.append(unparse(e))
+            sanitised = 'sanitize_molecule_string(' in want
+            ok = len(names) == 1 and (names[0].startswith('sanitize_molecule_string(') if sanitised
+                                      else names[0].endswith('.moleculeName'))
+            R.check('5.name', 'TAB', site, 'discovered molecule name is %s' % (
+                'passed through sanitize_molecule_string' if sanitised else 'the name stored in the file'), ok,
+                    key=str(names), detail=str(names), loc=f.loc())
     site = 'taurex/util/util.py::sanitize_molecule_string'
     with R.guard('5.sanitize', 'ALG', site, 'sanitize'):
         f = ix.func(site)
